@@ -303,6 +303,9 @@ func ruleJSONLEAF(c *Ctx, r *Report) {
 			if a.Kind == "cmp" && strings.HasSuffix(a.Subj, ".Op") {
 				opKey = a.Subj
 			}
+			if a.Kind == "call" && strings.HasSuffix(a.Val, ".Op") {
+				opKey = a.Val
+			}
 		}
 		ops := c.possibleOps(p.Atoms, opKey)
 		isBare := false
